@@ -875,6 +875,21 @@ def oracle_fitted_state(case, ctx):
         if touched:
             discs.append(D("fit_fits_constructor_component:%s" % type(est).__name__, "%s: %s" % (
                 desc, ["%s: %s -> %s" % (k, comp_before[k], comp_after.get(k)) for k in touched[:3]])))
+    if kind in ("forecaster", "series_transformer") and not discs:
+        # fit never writes to the constructor parameters, whatever the data are like: also on
+        # series too short for the configuration (a fit that is refused, or one that falls
+        # back to something simpler, leaves get_params() as it was)
+        src = y if kind == "forecaster" else z
+        for k in (3, 5, 7, 11):
+            if k >= len(src):
+                break
+            e2 = pools.build_forecaster(spec) if kind == "forecaster" else panelpool.build_series_transformer(spec)
+            b2 = _snapshot(e2)
+            sut(lambda: e2.fit(src.iloc[:k].copy(), None, [1, 2]) if kind == "forecaster" else e2.fit(src.iloc[:k].copy()))
+            ch2 = _unchanged(b2, _snapshot(e2))
+            if ch2:
+                discs.append(D("fit_changes_parameter:%s" % type(e2).__name__, "%s fitted on the first %d observations: %s" % (desc, k, ch2[:3])))
+                break
     c = sut(clone, est)
     if isinstance(c, Raised):
         discs.append(D("clone_of_fitted_fails:%s" % type(est).__name__, repr(c)))
